@@ -29,7 +29,9 @@ META = {
     "explanation": "symbolic execution of write_raw / write driven against the memory model",
     "bounds": ["every declared value; writable ones with all bytes symbolic; strings also as short writes of "
                "every length (quick: a few lengths)", "one fault of each kind at a symbolic write step",
-               "lock byte initially 0x55 / 0xFF / symbolic", "force_unlock and ignore_feedback both ways"],
+               "lock byte initially 0x55 / 0xFF / symbolic", "force_unlock and ignore_feedback both ways",
+               "six synthetic values (declared by the harness through the library's metaclass in a lockable "
+               "bank) whose locations mix writable, read-only, untyped and lockable memory types"],
     "stubs": ["isinstance/int/bytes shims"],
     "outside": ["several faults in one write", "units violating 9.10 in other ways",
                 "NVM_RW_P (vendor-protected) locations - none declared"],
